@@ -345,7 +345,7 @@ def x_aol_types_WriterCompositeKey_FromStrings : List String := ["if len(strings
 def x_aol_types_WriterCompositeKey_Strings : List String := ["return _", "call _.String()", "call _.String()"]
 
 /-- x/aol/types.init -/
-def x_aol_types_init : List String := ["call RegisterCodec(amino)", "call amino.Seal()", "call RegisterCodec(authzcodec.Amino)"]
+def x_aol_types_init : List String := ["call RegisterCodec(amino)", "call amino.Seal()", "call RegisterCodec(authzcodec.Amino)", "call RegisterCodec(govcodec.Amino)", "call RegisterCodec(groupcodec.Amino)"]
 
 /-- x/aol/types.validateCanonicalKey -/
 def x_aol_types_validateCanonicalKey : List String := ["if canonical != keyStr", "assign canonical := compkey.EncodeToString(key, GenesisKeySeparator)", "call compkey.EncodeToString(key, GenesisKeySeparator)", "return _", "call fmt.Errorf(_, keyStr, canonical)", "return nil"]
@@ -834,7 +834,7 @@ def x_did_types_WithVerificationMethods : List String := ["return _", "assign op
 def x_did_types_didRegex : List String := ["return _", "call fmt.Sprintf(_, DIDMethod, Base58Charset)", "lit \"did:%s:[%s]{32,44}\""]
 
 /-- x/did/types.init -/
-def x_did_types_init : List String := ["call RegisterCodec(authzcodec.Amino)"]
+def x_did_types_init : List String := ["call RegisterCodec(authzcodec.Amino)", "call RegisterCodec(govcodec.Amino)", "call RegisterCodec(groupcodec.Amino)"]
 
 /-- x/did/types.mustGetSignBytesWithSeq -/
 def x_did_types_mustGetSignBytesWithSeq : List String := ["assign dAtA,err := signableData.Marshal()", "call signableData.Marshal()", "if err != nil", "call panic(_)", "call fmt.Sprintf(_, err.Error(), signableData)", "lit \"marshal failed: %s, signableData: %s\"", "call err.Error()", "assign dataWithSeq := _", "kv Data=dAtA", "kv Sequence=seq", "assign dAtA,err = dataWithSeq.Marshal()", "call dataWithSeq.Marshal()", "if err != nil", "call panic(_)", "call fmt.Sprintf(_, err.Error(), dataWithSeq)", "lit \"marshal failed: %s, dataWithSeq: %v\"", "call err.Error()", "return dAtA"]
